@@ -121,7 +121,7 @@ Lemma ecode_eqb_eq : forall a b, ecode_eqb a b = true <-> a = b.
 Proof. intros a b; split; [destruct a, b; cbn; congruence | intros ->; destruct b; reflexivity]. Qed.
 
 (* what a handler returns: a known enumerator of ppl_enum_error_code, or some other expression *)
-Inductive rcode := Code (c : ecode) | CodeUnknown (s : string).
+Inductive rcode := Code (c : ecode) | NullPtr (* `return nullptr;` in an entry returning a pointer *) | CodeUnknown (s : string).
 
 (* ---- catch clauses ------------------------------------------------------------------------ *)
 
